@@ -56,10 +56,9 @@ def sym_method(interp, obj, name):
     fn = tbl.get(name)
     if fn is not None:
         return BoundModel(fn, obj, name)
-    if hasattr(t, name):
-        a = getattr(t, name)
-        if name in ("__class__",):
-            return t
+    if name == "__class__":
+        return t
+    if any(name in k.__dict__ for k in t.__mro__):       # instance attribute lookup goes through the type's MRO
         if name == "__doc__":
             return t.__doc__
         raise Unsupported("method %s.%s on a symbolic value" % (t.__name__, name))
@@ -576,7 +575,7 @@ class SymSlice(Sym):
     def sym_getattr(obj, interp, name):
         if name in ("start", "stop", "step"):
             return getattr(obj, name)
-        raise AttributeError(name)
+        return sym_method(interp, obj, name)
 
     def truth_term(self):
         return z3.BoolVal(True)
@@ -628,7 +627,7 @@ class SymComplex(Sym):
     def sym_getattr(obj, interp, name):
         if name in ("real", "imag"):
             return getattr(obj, name)
-        raise AttributeError(name)
+        return sym_method(interp, obj, name)
 
     def truth_term(self):
         raise Unsupported("truth of symbolic complex")
@@ -1018,6 +1017,9 @@ def install(interp):
     tm[range] = m_range
     m[zlib.compress] = zlib_compress
     m[zlib.decompress] = zlib_decompress
+    import inspect as _inspect
+    m[_inspect.ismodule] = lambda interp, x: False if isinstance(x, Sym) else _inspect.ismodule(x)
+    m[_inspect.isclass] = lambda interp, x: False if isinstance(x, Sym) else _inspect.isclass(x)
     for f in SYM_TOLERANT:
         w = (lambda fn: (lambda interp, *a, **k: fn(*a, **k)))(f)
         if isinstance(f, type):
